@@ -96,6 +96,13 @@ func c17Base(r gen.R) (*sl.Program, []string) {
 			steers = append(steers, l)
 			rule.Chain = &sl.Rule{Phase: rule.Phase, Severity: -1, Targets: []sl.Sel{{Var: "ARGS_GET", Kind: 1, Key: l}}, Op: &sl.Op{Name: "streq", Arg: "1"},
 				Setvars: []sl.Setvar{{Key: fmt.Sprintf("c%d", id), Kind: "+", Val: "1"}}}
+			if gen.Chance(r, 0.4) {
+				// a third chain member: run-time target removals reach every member of the chain
+				l3 := fmt.Sprintf("m%d", id)
+				steers = append(steers, l3)
+				rule.Chain.Chain = &sl.Rule{Phase: rule.Phase, Severity: -1, Targets: []sl.Sel{{Var: "ARGS_GET", Kind: 1, Key: l3}, {Var: "ARGS_GET", Kind: 1, Key: a}}, Op: &sl.Op{Name: "streq", Arg: "1"},
+					Setvars: []sl.Setvar{{Key: fmt.Sprintf("d%d", id), Kind: "+", Val: "1"}}}
+			}
 		}
 		p.Items = append(p.Items, sl.Item{Rule: rule})
 	}
@@ -474,9 +481,28 @@ func c17Build(r gen.R) (*c17Case, bool) {
 				if car.mod.Kind == "updTargetByMsg" {
 					if ru.Msg != "" && ru.Msg == car.mod.Msg {
 						ru.Targets = append(ru.Targets, *car.mod.Sel)
+						c17ExcludeInChain(ru, car.mod.Sel, 1)
 					}
 				} else {
+					times := 0
+					switch car.mod.Kind {
+					case "updTargetById":
+						for _, x := range car.mod.IDs {
+							if x == ru.ID {
+								times++
+							}
+						}
+					case "updTargetByTag":
+						if hasTag(ru, car.mod.Tag) {
+							times = 1
+						}
+					}
 					ru = c17Apply(ru, car.mod)
+					if ru != nil && times > 0 {
+						// a run-time target removal is stored under the id of the chain starter and looked up by every
+						// member of the chain
+						c17ExcludeInChain(ru, car.mod.Sel, times)
+					}
 				}
 			}
 			if ru != nil {
@@ -538,8 +564,21 @@ func carsInEvalOrder(cars []*c17Car, idxOf map[*c17Car]int) []*c17Car {
 	return out
 }
 
+// c17ExcludeInChain adds the exclusion to the chain members below the starter (cloneRule copies the chain).
+func c17ExcludeInChain(ru *sl.Rule, sel *sl.Sel, times int) {
+	for l := ru.Chain; l != nil; l = l.Chain {
+		for k := 0; k < times; k++ {
+			l.Targets = append(l.Targets, *sel)
+		}
+	}
+}
+
 // c17CtlTarget: a ctl:ruleRemoveTarget* target (always an exclusion of a string or regex key).
 func c17CtlTarget(r gen.R, id int) *sl.Sel {
+	if gen.Chance(r, 0.25) {
+		// the key only a chain member (second or third) reads
+		return &sl.Sel{Var: "ARGS_GET", Kind: 1, Key: fmt.Sprintf("%s%d", gen.Pick(r, []string{"l", "m"}), id), Excl: true}
+	}
 	if gen.Chance(r, 0.6) {
 		return &sl.Sel{Var: "ARGS_GET", Kind: 1, Key: fmt.Sprintf("a%d", id), Excl: true}
 	}
